@@ -325,15 +325,15 @@ theorem dropModule_spec {F : Facts} (hG : Good F) (k : Nat) (s : St) (hm : s.map
 /-- number of owners of Module k: live packages and live handles -/
 def owners (s : St) (k : Nat) : Nat := s.pkgs.count k + s.hs.countP (fun h => h.k == k)
 
-def constPred (s : St) (r : Nat) : Nat → Bool := fun k => (s.info k).keepConst && (s.info k).rt == r
-def closPred (s : St) (r : Nat) : Nat → Bool := fun k => (s.info k).keepClos && (s.info k).rt == r
+def constPred (info : Nat → ModInfo) (r : Nat) : Nat → Bool := fun k => (info k).keepConst && (info k).rt == r
+def closPred (info : Nat → ModInfo) (r : Nat) : Nat → Bool := fun k => (info k).keepClos && (info k).rt == r
 
 /-- everything except "strong count = number of owners" (stated on the explicit counts only) -/
 structure InvCore (s : St) : Prop where
   holds : ∀ h ∈ s.hs, h.holds = true
   alive_cnt : ∀ k, s.alive.count k = if 0 < s.strong k then 1 else 0
-  constRc_eq : ∀ r, s.constRc r = s.rtConst.count r + s.alive.countP (constPred s r)
-  closRc_eq : ∀ r, s.closRc r = s.rtClos.count r + s.alive.countP (closPred s r)
+  constRc_eq : ∀ r, s.constRc r = s.rtConst.count r + s.alive.countP (constPred s.info r)
+  closRc_eq : ∀ r, s.closRc r = s.rtClos.count r + s.alive.countP (closPred s.info r)
   const_rel : ∀ r, s.relCount (.regConst r) = if r ∈ s.constEver ∧ s.constRc r = 0 then 1 else 0
   const_ever : ∀ r, r ∉ s.constEver → s.constRc r = 0
   clos_rel : ∀ r, s.relCount (.closure r) = if r ∈ s.closEver ∧ s.closRc r = 0 then 1 else 0
@@ -386,10 +386,10 @@ theorem decModule_inv {F : Facts} (hG : Good F) (s : St) (k : Nat) (hc : InvCore
       d_hs, d_constRc, d_closRc, d_mapped, d_alive, d_faults, d_rel⟩ := D
     simp only [St.relCount] at d_rel
     dsimp only at d_rts d_built d_rtConst d_rtClos d_constEver d_closEver d_compiled d_info d_strong d_pkgs d_hs d_constRc d_closRc d_mapped d_alive d_faults d_rel
-    have hcp : ∀ r, constPred s' r = constPred s r := by
-      intro r; funext j; simp [constPred, d_info]
-    have hfp : ∀ r, closPred s' r = closPred s r := by
-      intro r; funext j; simp [closPred, d_info]
+    have hcp : ∀ r, constPred s'.info r = constPred s.info r := by
+      intro r; rw [d_info]
+    have hfp : ∀ r, closPred s'.info r = closPred s.info r := by
+      intro r; rw [d_info]
     have hal : k ∈ s.alive := hc.mem_alive hk
     have hcomp : k ∈ s.compiled := hc.mem_compiled hk
     refine ⟨?_, d_strong, d_pkgs, d_hs⟩
@@ -405,43 +405,43 @@ theorem decModule_inv {F : Facts} (hG : Good F) (s : St) (k : Nat) (hc : InvCore
       · rw [upd_other _ _ _ _ hj, List.count_erase_of_ne hj]; exact hc.alive_cnt j
     · intro r
       rw [d_constRc, d_rtConst, d_alive, hcp]
-      have e := countP_erase_add (constPred s r) s.alive k hal
+      have e := countP_erase_add (constPred s.info r) s.alive k hal
       have c := hc.constRc_eq r
       by_cases hkc : (s.info k).keepConst = true
       · by_cases hr : r = (s.info k).rt
         · subst hr
-          have hp : constPred s (s.info k).rt k = true := by simp [constPred, hkc]
+          have hp : constPred s.info (s.info k).rt k = true := by simp [constPred, hkc]
           simp only [hp, if_true] at e
           simp only [hkc, if_true, upd_same]
           omega
-        · have hp : constPred s r k = false := by
+        · have hp : constPred s.info r k = false := by
             simp only [constPred, hkc, Bool.true_and, beq_eq_false_iff_ne]; exact fun e => hr e.symm
           simp only [hp, Bool.false_eq_true, if_false] at e
           simp only [hkc, if_true, upd_other _ _ _ _ hr]
           omega
       · have hkc' : (s.info k).keepConst = false := by simpa using hkc
-        have hp : constPred s r k = false := by simp [constPred, hkc']
+        have hp : constPred s.info r k = false := by simp [constPred, hkc']
         simp only [hp, Bool.false_eq_true, if_false] at e
         simp only [hkc', Bool.false_eq_true, if_false]
         omega
     · intro r
       rw [d_closRc, d_rtClos, d_alive, hfp]
-      have e := countP_erase_add (closPred s r) s.alive k hal
+      have e := countP_erase_add (closPred s.info r) s.alive k hal
       have c := hc.closRc_eq r
       by_cases hkc : (s.info k).keepClos = true
       · by_cases hr : r = (s.info k).rt
         · subst hr
-          have hp : closPred s (s.info k).rt k = true := by simp [closPred, hkc]
+          have hp : closPred s.info (s.info k).rt k = true := by simp [closPred, hkc]
           simp only [hp, if_true] at e
           simp only [hkc, if_true, upd_same]
           omega
-        · have hp : closPred s r k = false := by
+        · have hp : closPred s.info r k = false := by
             simp only [closPred, hkc, Bool.true_and, beq_eq_false_iff_ne]; exact fun e => hr e.symm
           simp only [hp, Bool.false_eq_true, if_false] at e
           simp only [hkc, if_true, upd_other _ _ _ _ hr]
           omega
       · have hkc' : (s.info k).keepClos = false := by simpa using hkc
-        have hp : closPred s r k = false := by simp [closPred, hkc']
+        have hp : closPred s.info r k = false := by simp [closPred, hkc']
         simp only [hp, Bool.false_eq_true, if_false] at e
         simp only [hkc', Bool.false_eq_true, if_false]
         omega
@@ -452,11 +452,11 @@ theorem decModule_inv {F : Facts} (hG : Good F) (s : St) (k : Nat) (hc : InvCore
       have c := hc.const_rel r
       simp only [St.relCount] at c
       have ce := hc.const_ever r
-      have e := countP_erase_add (constPred s (s.info k).rt) s.alive k hal
+      have e := countP_erase_add (constPred s.info (s.info k).rt) s.alive k hal
       have cq := hc.constRc_eq (s.info k).rt
       simp only [scHit, reduceCtorEq, if_false, and_false, Nat.add_zero]
       by_cases hkc : (s.info k).keepConst = true
-      · have hp : constPred s (s.info k).rt k = true := by simp [constPred, hkc]
+      · have hp : constPred s.info (s.info k).rt k = true := by simp [constPred, hkc]
         simp only [hp, if_true] at e
         by_cases hr : r = (s.info k).rt
         · subst hr
@@ -488,11 +488,11 @@ theorem decModule_inv {F : Facts} (hG : Good F) (s : St) (k : Nat) (hc : InvCore
       have c := hc.clos_rel r
       simp only [St.relCount] at c
       have ce := hc.clos_ever r
-      have e := countP_erase_add (closPred s (s.info k).rt) s.alive k hal
+      have e := countP_erase_add (closPred s.info (s.info k).rt) s.alive k hal
       have cq := hc.closRc_eq (s.info k).rt
       simp only [scHit, reduceCtorEq, if_false, and_false, Nat.add_zero]
       by_cases hkc : (s.info k).keepClos = true
-      · have hp : closPred s (s.info k).rt k = true := by simp [closPred, hkc]
+      · have hp : closPred s.info (s.info k).rt k = true := by simp [closPred, hkc]
         simp only [hp, if_true] at e
         by_cases hr : r = (s.info k).rt
         · subst hr
@@ -607,5 +607,226 @@ theorem decModule_inv {F : Facts} (hG : Good F) (s : St) (k : Nat) (hc : InvCore
     · exact hc.no_fault
     · exact hc.expect_ok
     · exact hc.uses
+
+/-! ### a module with a positive count is callable -/
+
+theorem unreleased_of_relCount_zero {s : St} {x : Res} (h : s.relCount x = 0) : unreleased s x = true := by
+  simp only [unreleased, Bool.not_eq_true', List.contains_eq_mem, decide_eq_false_iff_not]
+  exact List.count_eq_zero.1 h
+
+theorem InvCore.const_alive {s : St} (hc : InvCore s) {k : Nat} (hk : 0 < s.strong k)
+    (hkc : (s.info k).keepConst = true) : s.relCount (.regConst (s.info k).rt) = 0 := by
+  have hal := hc.mem_alive hk
+  have hp : constPred s.info (s.info k).rt k = true := by simp [constPred, hkc]
+  have : 0 < s.alive.countP (constPred s.info (s.info k).rt) := List.countP_pos_iff.2 ⟨k, hal, hp⟩
+  have c := hc.constRc_eq (s.info k).rt
+  have hne : ¬ s.constRc (s.info k).rt = 0 := by omega
+  rw [hc.const_rel]; simp [hne]
+
+theorem InvCore.clos_alive {s : St} (hc : InvCore s) {k : Nat} (hk : 0 < s.strong k)
+    (hkc : (s.info k).keepClos = true) : s.relCount (.closure (s.info k).rt) = 0 := by
+  have hal := hc.mem_alive hk
+  have hp : closPred s.info (s.info k).rt k = true := by simp [closPred, hkc]
+  have : 0 < s.alive.countP (closPred s.info (s.info k).rt) := List.countP_pos_iff.2 ⟨k, hal, hp⟩
+  have c := hc.closRc_eq (s.info k).rt
+  have hne : ¬ s.closRc (s.info k).rt = 0 := by omega
+  rw [hc.clos_rel]; simp [hne]
+
+theorem InvCore.sc_alive {s : St} (hc : InvCore s) {k : Nat} (hk : 0 < s.strong k) (c : Nat) :
+    s.relCount (.scriptConst k c) = 0 := by
+  have hne : ¬ s.strong k = 0 := by omega
+  rw [hc.sc_rel]; simp [hne]
+
+theorem callRes_ok {s : St} (hc : InvCore s) {k : Nat} (hk : 0 < s.strong k) :
+    callRes s k = .ok (s.info k).value := by
+  have hm : s.mapped k = true := by rw [hc.mapped_eq]; simpa using hk
+  have hsc : (List.range (s.info k).nconst).all (fun c => unreleased s (.scriptConst k c)) = true := by
+    rw [List.all_eq_true]; intro c _; exact unreleased_of_relCount_zero (hc.sc_alive hk c)
+  have huc : (!(s.info k).useConst || unreleased s (.regConst (s.info k).rt)) = true := by
+    cases h : (s.info k).useConst
+    · rfl
+    · simp only [Bool.not_true, Bool.false_or]
+      exact unreleased_of_relCount_zero (hc.const_alive hk ((hc.uses k).1 h))
+  have huf : (!(s.info k).useClos || unreleased s (.closure (s.info k).rt)) = true := by
+    cases h : (s.info k).useClos
+    · rfl
+    · simp only [Bool.not_true, Bool.false_or]
+      exact unreleased_of_relCount_zero (hc.clos_alive hk ((hc.uses k).2 h))
+  simp only [callRes, hm, hsc, huc, huf, Bool.and_self, if_true]
+
+theorem Inv.strong_pos_of_handle {s : St} (hI : Inv s) {h : Handle} (hh : h ∈ s.hs) : 0 < s.strong h.k := by
+  rw [hI.strong_eq]
+  have : 0 < s.hs.countP (fun x => x.k == h.k) := List.countP_pos_iff.2 ⟨h, hh, by simp⟩
+  simp only [owners]; omega
+
+theorem Inv.strong_pos_of_pkg {s : St} (hI : Inv s) {k : Nat} (hk : k ∈ s.pkgs) : 0 < s.strong k := by
+  rw [hI.strong_eq]
+  have : 0 < s.pkgs.count k := List.count_pos_iff.2 hk
+  simp only [owners]; omega
+
+/-! ### every operation preserves the invariant -/
+
+/-- a new handle (from a package, or cloned) on a module that is alive -/
+theorem addHandle_inv {s : St} (hI : Inv s) (h : Handle) (hk : 0 < s.strong h.k) (hh : h.holds = true)
+    (he : h.expect = .ok (s.info h.k).value) :
+    Inv { s with hs := s.hs ++ [h], strong := upd s.strong h.k (s.strong h.k + 1) } := by
+  have hc := hI.toInvCore
+  constructor
+  · constructor
+    · intro x hx
+      rcases List.mem_append.1 hx with hx | hx
+      · exact hc.holds x hx
+      · simp only [List.mem_singleton] at hx; subst hx; exact hh
+    · intro j
+      show s.alive.count j = if 0 < upd s.strong h.k (s.strong h.k + 1) j then 1 else 0
+      by_cases hj : j = h.k
+      · subst hj; rw [upd_same]; have := hc.alive_cnt h.k; simp only [hk, if_true] at this; simp [this]
+      · rw [upd_other _ _ _ _ hj]; exact hc.alive_cnt j
+    · exact hc.constRc_eq
+    · exact hc.closRc_eq
+    · exact hc.const_rel
+    · exact hc.const_ever
+    · exact hc.clos_rel
+    · exact hc.clos_ever
+    · intro j
+      show s.relCount (.code j) = if j ∈ s.compiled ∧ upd s.strong h.k (s.strong h.k + 1) j = 0 then 1 else 0
+      by_cases hj : j = h.k
+      · subst hj; rw [upd_same, hc.code_rel]
+        have a : ¬ s.strong h.k = 0 := by omega
+        simp [a]
+      · rw [upd_other _ _ _ _ hj]; exact hc.code_rel j
+    · intro j
+      show s.mapped j = decide (0 < upd s.strong h.k (s.strong h.k + 1) j)
+      by_cases hj : j = h.k
+      · subst hj; rw [upd_same, hc.mapped_eq]; simp [hk]
+      · rw [upd_other _ _ _ _ hj]; exact hc.mapped_eq j
+    · intro j hj
+      show upd s.strong h.k (s.strong h.k + 1) j = 0
+      by_cases e : j = h.k
+      · subst e; have := hc.compiled_strong h.k hj; omega
+      · rw [upd_other _ _ _ _ e]; exact hc.compiled_strong j hj
+    · intro j c
+      show s.relCount (.scriptConst j c)
+        = if j ∈ s.compiled ∧ upd s.strong h.k (s.strong h.k + 1) j = 0 ∧ c < (s.info j).nconst then 1 else 0
+      by_cases hj : j = h.k
+      · subst hj; rw [upd_same, hc.sc_rel]
+        have a : ¬ s.strong h.k = 0 := by omega
+        simp [a]
+      · rw [upd_other _ _ _ _ hj]; exact hc.sc_rel j c
+    · exact hc.no_fault
+    · intro x hx
+      rcases List.mem_append.1 hx with hx | hx
+      · exact hc.expect_ok x hx
+      · simp only [List.mem_singleton] at hx; subst hx; exact he
+    · exact hc.uses
+  · intro j
+    show upd s.strong h.k (s.strong h.k + 1) j = s.pkgs.count j + (s.hs ++ [h]).countP (fun x => x.k == j)
+    have := hI.strong_eq j
+    simp only [owners] at this
+    rw [List.countP_append]
+    by_cases hj : j = h.k
+    · subst hj; rw [upd_same]; simp; omega
+    · rw [upd_other _ _ _ _ hj]
+      have : (h.k == j) = false := by simpa using fun e => hj e.symm
+      simp [this]; omega
+
+/-- the runtime lets go of its registered constant -/
+theorem dropRtConst_inv {s : St} (hc : InvCore s) {r : Nat} (hr : r ∈ s.rtConst) :
+    InvCore (decConst r { s with rtConst := s.rtConst.erase r }) := by
+  have hcnt : 0 < s.rtConst.count r := List.count_pos_iff.2 hr
+  have cq := hc.constRc_eq r
+  have hpos : 0 < s.constRc r := by omega
+  have hev : r ∈ s.constEver := by
+    apply Classical.byContradiction; intro hn; have := hc.const_ever r hn; omega
+  constructor
+  · simpa using hc.holds
+  · simpa using hc.alive_cnt
+  · intro r'
+    simp only [decConst_constRc, decConst_rtConst, decConst_alive, decConst_info]
+    show upd s.constRc r (s.constRc r - 1) r' = (s.rtConst.erase r).count r' + s.alive.countP (constPred s.info r')
+    by_cases e : r' = r
+    · subst e; rw [upd_same, List.count_erase_self]; omega
+    · rw [upd_other _ _ _ _ e, List.count_erase_of_ne e]; exact hc.constRc_eq r'
+  · simpa using hc.closRc_eq
+  · intro r'
+    simp only [decConst_relCount, decConst_constRc, decConst_constEver]
+    simp only [St.relCount]
+    have c := hc.const_rel r'
+    simp only [St.relCount] at c
+    show s.released.count (.regConst r') + (if s.constRc r - 1 = 0 ∧ Res.regConst r' = .regConst r then 1 else 0)
+      = if r' ∈ s.constEver ∧ upd s.constRc r (s.constRc r - 1) r' = 0 then 1 else 0
+    by_cases e : r' = r
+    · subst e
+      have hne : ¬ s.constRc r' = 0 := by omega
+      simp only [hne, and_false, if_false] at c
+      simp [upd_same, c, hev]
+    · have : ¬ (Res.regConst r' = Res.regConst r) := by simpa using e
+      simp only [this, and_false, if_false, Nat.add_zero, upd_other _ _ _ _ e]; exact c
+  · intro r' h'
+    simp only [decConst_constRc]
+    have := hc.const_ever r' (by simpa using h')
+    by_cases e : r' = r
+    · subst e; rw [upd_same]; omega
+    · rw [upd_other _ _ _ _ e]; exact this
+  · intro r'
+    have c := hc.clos_rel r'
+    simpa [St.relCount] using c
+  · simpa using hc.clos_ever
+  · intro k; have c := hc.code_rel k; simpa [St.relCount] using c
+  · simpa using hc.mapped_eq
+  · simpa using hc.compiled_strong
+  · intro k c; have cc := hc.sc_rel k c; simpa [St.relCount] using cc
+  · simpa using hc.no_fault
+  · simpa using hc.expect_ok
+  · simpa using hc.uses
+
+theorem dropRtClos_inv {s : St} (hc : InvCore s) {r : Nat} (hr : r ∈ s.rtClos) :
+    InvCore (decClos r { s with rtClos := s.rtClos.erase r }) := by
+  have hcnt : 0 < s.rtClos.count r := List.count_pos_iff.2 hr
+  have cq := hc.closRc_eq r
+  have hpos : 0 < s.closRc r := by omega
+  have hev : r ∈ s.closEver := by
+    apply Classical.byContradiction; intro hn; have := hc.clos_ever r hn; omega
+  constructor
+  · simpa using hc.holds
+  · simpa using hc.alive_cnt
+  · simpa using hc.constRc_eq
+  · intro r'
+    simp only [decClos_closRc, decClos_rtClos, decClos_alive, decClos_info]
+    show upd s.closRc r (s.closRc r - 1) r' = (s.rtClos.erase r).count r' + s.alive.countP (closPred s.info r')
+    by_cases e : r' = r
+    · subst e; rw [upd_same, List.count_erase_self]; omega
+    · rw [upd_other _ _ _ _ e, List.count_erase_of_ne e]; exact hc.closRc_eq r'
+  · intro r'
+    have c := hc.const_rel r'
+    simpa [St.relCount] using c
+  · simpa using hc.const_ever
+  · intro r'
+    simp only [decClos_relCount, decClos_closRc, decClos_closEver]
+    simp only [St.relCount]
+    have c := hc.clos_rel r'
+    simp only [St.relCount] at c
+    show s.released.count (.closure r') + (if s.closRc r - 1 = 0 ∧ Res.closure r' = .closure r then 1 else 0)
+      = if r' ∈ s.closEver ∧ upd s.closRc r (s.closRc r - 1) r' = 0 then 1 else 0
+    by_cases e : r' = r
+    · subst e
+      have hne : ¬ s.closRc r' = 0 := by omega
+      simp only [hne, and_false, if_false] at c
+      simp [upd_same, c, hev]
+    · have : ¬ (Res.closure r' = Res.closure r) := by simpa using e
+      simp only [this, and_false, if_false, Nat.add_zero, upd_other _ _ _ _ e]; exact c
+  · intro r' h'
+    simp only [decClos_closRc]
+    have := hc.clos_ever r' (by simpa using h')
+    by_cases e : r' = r
+    · subst e; rw [upd_same]; omega
+    · rw [upd_other _ _ _ _ e]; exact this
+  · intro k; have c := hc.code_rel k; simpa [St.relCount] using c
+  · simpa using hc.mapped_eq
+  · simpa using hc.compiled_strong
+  · intro k c; have cc := hc.sc_rel k c; simpa [St.relCount] using cc
+  · simpa using hc.no_fault
+  · simpa using hc.expect_ok
+  · simpa using hc.uses
 
 end RotoV.Lifetime
